@@ -5,49 +5,68 @@
 # clean-up under the wrong map key (Dev_ExpiryWrongKey) violates it, and emits the behaviours
 # (renew / tick / inject sequences with the verdict of every injection).  A behaviour is replayed
 # in real time on a real client channel: every renewal is answered by a fresh gopcua server
-# channel object issuing the next token id, the server clock is skewed so that the client's own
-# expiry timers fall where the model says (tick = 400 ms), the injected chunks are laid out by the
+# channel object issuing the next token id, every token gets its own (real) lifetime -- 2 s, 5 s,
+# 100 s; tokens need not expire in issue order -- (tick = 250 ms), the injected chunks are laid out by the
 # harness's chunk writer and protected with the real keys of the chosen token.  Late injections
 # wait for the channel's own expire.run event (bounded), not for the wall clock.
 import vf
 import screcv_common as sc
 
 
+def sig(b):
+    """What a behaviour exercises: lifetimes of the tokens in issue order, which renewals are late, which tokens are injected overdue."""
+    lifes = [b["life1"]] + [s["life"] for s in b["steps"] if s["act"] == "renew"]
+    late = tuple(s["now"] > 3 for s in b["steps"] if s["act"] == "renew")
+    od = tuple(sorted({s["t"] for s in b["steps"] if s["act"] == "inject" and s.get("overdue")}))
+    return (tuple(lifes), late, od)
+
+
 def body(run):
     q = run.quick()
     exe = [None]
     res = run.parallel(
-        lambda: run.tlc("ScRecv", "ScExpire", "ScExpire_mc.cfg", workers=2, label="contract: 3 tokens, lifetime 4 ticks, 12 ticks, 3 injections"),
-        lambda: run.tlc("ScRecv", "ScExpire", "ScExpire_dev.cfg", workers=1, expect="violation", count=False,
+        lambda: run.tlc("ScRecv", "ScExpire", "ScExpire_mc.cfg", workers=2, label="contract: 3 tokens, lifetimes 2 s / 5 s / 100 s per token, 30 ticks, 2 injections"),
+        lambda: run.tlc("ScRecv", "ScExpire", "ScExpire_dev.cfg", expect="violation", count=False, workers=1,
                         label="deviation demo: expiry under the wrong map key violates InvExpired"),
-        lambda: run.tlc("ScRecv", "ScExpire", "ScExpire_gen_q.cfg" if q else "ScExpire_gen_t.cfg", mode="gen", count=False,
-                        label="behaviours with at least one overdue injection"),
+        lambda: run.tlc("ScRecv", "ScExpire", "ScExpire_dev2.cfg", expect="violation", count=False, workers=1,
+                        label="deviation demo: sweeping only an overdue front of the token list violates InvExpired (long, short, long)"),
+        lambda: run.tlc("ScRecv", "ScExpire", "ScExpire_gen_a.cfg", mode="gen", count=False,
+                        label="behaviours: 3 tokens, lifetimes 2 s / 100 s, early and late renewals"),
+        lambda: run.tlc("ScRecv", "ScExpire", "ScExpire_gen_b.cfg", mode="gen", count=False,
+                        label="behaviours: 2 tokens, lifetimes 5 s / 100 s"),
         lambda: exe.__setitem__(0, run.go_build("screcv")),
     )
-    rows = res[2].rows
+    rows_a, rows_b = res[3].rows, res[4].rows
     combos = [("Basic256Sha256", "Sign"), ("Basic256Sha256", "SignAndEncrypt")] if q else sc.SECURED
     cases = []
     salt = 0
     for pol, mode in combos:
         salt += 1
-        for b in sc.sample(rows, run.pick(6, 30 if pol == "Basic256Sha256" else 6), run.seed, salt):
+        main = pol == "Basic256Sha256"
+        pick = sc.stratified(rows_a, sig, 1 if q or not main else 3, run.seed, salt)
+        pick += sc.stratified(rows_b, sig, 1, run.seed, salt + 50)
+        if q or not main:
+            pick = sc.sample(pick, 22 if main else 6, run.seed, salt + 99)
+        for b in pick:
             c = dict(b)
             c.update({"prop": "C17", "policy": pol, "mode": mode, "side": "client"})
             cases.append(c)
-        cases.append({"prop": "C17", "policy": pol, "mode": mode, "side": "server", "lifetime": 4, "steps": []})
-    run.log("TLC: %d states; %d behaviours; %d cases (real time, ~4 s each)" % (run.cov["states"], len(rows), len(cases)))
+        cases.append({"prop": "C17", "policy": pol, "mode": mode, "side": "server", "life1": 8, "steps": []})
+    run.log("TLC: %d states; %d + %d behaviours; %d cases (real time, 4-8 s each)" % (run.cov["states"], len(rows_a), len(rows_b), len(cases)))
     results = run.go_run(exe[0], ["-par", "8", "-batch", "4"], cases=cases, timeout=run.pick(900, 2400))
     if len(results) != len(cases):
         raise vf.Inconclusive("harness returned %d results for %d cases" % (len(results), len(cases)))
     sc.log_inconclusive(run, results)
     run.absorb(results)
-    run.cov["behaviours_generated"] = len(rows)
-    run.cov["rule"] = ("one case per (sampled TLC behaviour with an overdue injection, policy, mode) on a client channel, plus one "
-                       "renewal-drops-old-keys observation per (policy, mode) on a server channel; class = the behaviour's action sequence")
+    run.cov["behaviours_generated"] = len(rows_a) + len(rows_b)
+    run.cov["rule"] = ("one case per (TLC behaviour with an overdue injection, sampled one per signature = (lifetimes of the tokens in issue order, "
+                       "early/late renewals, tokens injected overdue), policy, mode) on a client channel, plus one renewal-drops-old-keys observation "
+                       "per (policy, mode) on a server channel; class = the behaviour's action sequence")
     run.assumptions += [
-        "model tick = 400 ms; real lifetime 20 s with the token-issuing clock 23 s behind, so created + 1.25 x lifetime falls 5 ticks after issue",
+        "model tick = 250 ms; token lifetimes are real: 2 s, 5 s (not multiples of 800 ms: 1.25 x lifetime is not a whole number of seconds) and 100 s, one per token, set through the requested lifetime (gopcua's server code revises to exactly that)",
         "a late injection is sent 500 ms after its model time and additionally waits up to 4 s for the channel's expire.run event of that token (scheduling slack on a loaded machine)",
         "only injections of a replaced token after created + 1.25 x lifetime are judged; whether earlier ones are still accepted is C16's question (recorded)",
+        "renewals happen in the first 500 ms or after the client's own renewal timers (0.75 x lifetime, unanswered here) have given up; their unanswered OPN requests are discarded",
         "renewals are answered by gopcua's own server-side OPN code (a fresh server channel object per token id); the server side of gopcua re-keys one instance in place, so a server channel holds no old keys at all (recorded, not judged)",
     ]
 
